@@ -38,6 +38,8 @@ def run(ctx):
     from . import c20
     ctx.alias = {'R4': 'R7'}
     c20.r4_load(ctx)
+    ctx.alias = {'R1': 'R7'}
+    c20.r1_readers(ctx)
     ctx.alias = {}
 
 
